@@ -223,21 +223,31 @@ func hReaderOp(l List, b List, o Object, op int) any {
 	}
 }
 
+// hReaderFixture builds the shared containers (twice from the same symbolic values: the sequential reference
+// runs on one copy, the concurrent calls on the other, which no operation has touched before — a lazily
+// filled cache would be written for the first time under concurrency)
+func hReaderFixture(x int, spare int) (List, List, Object) {
+	b := NewList(x)
+	l := hListWithSpare(3, spare)
+	l.Replace(0, x).Replace(1, b).Replace(2, "s\n") // every scalar kind that has per-value state worth caching is present
+	o := NewObject("a", x, "l", l, "s", "t")
+	return l, b, o
+}
+
 func H_C15_concurrent_readers() {
 	verifBound("READERS", 2)
 	x := nondetInt()
 	verifAssume(verifAnd(x >= 0, x < 10))
-	b := NewList(x)
-	l := hListWithSpare(3, nondetIntRange(0, 1))
-	l.Replace(0, x).Replace(1, b).Replace(2, "s\n") // every scalar kind that has per-value state worth caching is present
-	o := NewObject("a", x, "l", l, "s", "t")
+	spare := nondetIntRange(0, 1)
+	lr, br, or := hReaderFixture(x, spare)
+	l, b, o := hReaderFixture(x, spare)
 	op1 := nondetIntRange(0, hNumReaderOps-1)
 	op2 := op1
 	if nondetIntRange(0, 1) == 1 {
 		op2 = []int{0, 2, 3, 10, 14}[nondetIntRange(0, 4)]
 	}
-	want1 := hReaderOp(l, b, o, op1)
-	want2 := hReaderOp(l, b, o, op2)
+	want1 := hReaderOp(lr, br, or, op1)
+	want2 := hReaderOp(lr, br, or, op2)
 	var r1, r2 any
 	var wg sync.WaitGroup
 	verifSchedAll(1)
